@@ -247,11 +247,52 @@ def rule_r2(ctx) -> RuleResult:
             rr.ok(fnname, "shortcut `{}` implies that no later step matches".format(unparse(guard.test)[:50]), {"literals": lits})
     if not early:
         rr.ok(fnname, "every return follows all reduction steps")
-    src = unparse(fn)
-    if "''.join((m.group(1) or '' for m in onlys))" in src or "''.join(m.group(1) or '' for m in onlys)" in src:
-        rr.ok(fnname, "onlyinclude: join of all group(1)")
+    # onlyinclude: the result is the concatenation of group(1) of *every* match, in order -- as a comprehension over the
+    # matches or as an accumulation loop
+    def is_finditer(e) -> bool:
+        if isinstance(e, ast.Call) and unparse(e.func) in ("list", "tuple") and len(e.args) == 1:
+            e = e.args[0]
+        if isinstance(e, ast.Name):
+            defs = [n.value for n in walk_no_nested(fn) if isinstance(n, ast.Assign) and len(n.targets) == 1 and unparse(n.targets[0]) == e.id]
+            return len(defs) == 1 and is_finditer(defs[0])
+        return isinstance(e, ast.Call) and isinstance(e.func, ast.Attribute) and e.func.attr == "finditer"
+
+    def body_of(elt, var) -> bool:
+        # `m.group(1) or ""`  /  `m.group(1) if m.group(1) else ""` / `m[1] or ""`
+        txt = unparse(elt).replace('"', "'")
+        return txt in ("{0}.group(1) or ''".format(var), "{0}[1] or ''".format(var),
+                       "{0}.group(1) if {0}.group(1) else ''".format(var), "{0}.group(1) if {0}.group(1) is not None else ''".format(var))
+
+    joins = [c for c in walk_no_nested(fn) if isinstance(c, ast.Call) and isinstance(c.func, ast.Attribute) and c.func.attr == "join"
+             and isinstance(c.func.value, ast.Constant) and c.func.value.value == "" and len(c.args) == 1]
+    verdict = None
+    for j in joins:
+        a = j.args[0]
+        if isinstance(a, (ast.GeneratorExp, ast.ListComp)) and len(a.generators) == 1 and isinstance(a.generators[0].target, ast.Name):
+            g = a.generators[0]
+            if isinstance(g.iter, ast.Subscript) and is_finditer(g.iter.value):
+                verdict = ("bad", "only the matches `{}` are joined".format(unparse(g.iter)), j)
+            elif is_finditer(g.iter) and not g.ifs and body_of(a.elt, g.target.id):
+                verdict = ("ok", "join of group(1) of every match", j)
+            elif is_finditer(g.iter):
+                verdict = ("bad", "the joined pieces are `{}`{}, not the body of every match".format(
+                    unparse(a.elt)[:40], " (filtered)" if g.ifs else ""), j)
+        elif isinstance(a, ast.Name):
+            for lp in [n for n in walk_no_nested(fn) if isinstance(n, ast.For) and isinstance(n.target, ast.Name) and is_finditer(n.iter)]:
+                apps = [c for c in ast.walk(lp) if isinstance(c, ast.Call) and unparse(c.func) == a.id + ".append" and c.args]
+                if len(apps) == 1 and any(apps[0] is getattr(st, "value", None) for st in lp.body) and body_of(apps[0].args[0], lp.target.id):
+                    verdict = ("ok", "accumulation of group(1) of every match", j)
+                elif apps:
+                    verdict = ("bad", "the accumulated pieces are `{}` (or not every match is appended)".format(unparse(apps[0].args[0])[:40]), j)
+        if verdict:
+            break
+    if verdict is None:
+        raise AnalysisError("_template_to_body: how the <onlyinclude> bodies are combined was not recognised")
+    if verdict[0] == "ok":
+        rr.ok(fnname, "onlyinclude: " + verdict[1])
     else:
-        rr.bad(Finding("C04.R2", X.CORE, fnname, "onlyinclude join", "when onlyinclude is present the result is not the concatenation of all its bodies", fn.lineno))
+        rr.bad(Finding("C04.R2", X.CORE, fnname, "onlyinclude join",
+                       "when onlyinclude is present the result is not the concatenation of all its bodies: " + verdict[1], verdict[2].lineno))
     return rr
 
 
